@@ -96,6 +96,10 @@ type scen struct {
 	inflight, maxInflight int64
 	workers               map[int]bool // goroutine ids that ran a task
 	work                  int          // > 0: a task body yields this many times (so that overlaps show)
+	startSeq              map[int]int64
+	chain                 []int32
+	lean                  bool // keep the harness's own work per call / per task minimal (tight races)
+	after                 func(t int)
 	nholds                int32
 	holds                 map[int]*hold // goroutine id -> where it is to be held
 	callHold              map[int]*hold // call index -> its hold
@@ -105,7 +109,7 @@ type scen struct {
 func newScen(nw, capacity int, kinds func(int) (int, bool)) *scen {
 	s := &scen{ex: sched.NewThreadPoolExecutor(nw, capacity).(*sched.ThreadPoolExecutor),
 		endSeq: map[int]int64{}, runs: map[int]int{}, gates: map[int]chan struct{}{}, kinds: kinds, workers: map[int]bool{},
-		holds: map[int]*hold{}, callHold: map[int]*hold{}}
+		holds: map[int]*hold{}, callHold: map[int]*hold{}, startSeq: map[int]int64{}}
 	scens.Store(s.ex, s)
 	return s
 }
@@ -160,15 +164,26 @@ func (s *scen) task(t int) sched.Runnable {
 				break
 			}
 		}
-		gid := Goid()
+		gid := 0
+		if !s.lean {
+			gid = Goid()
+		}
 		s.mu.Lock()
 		s.start = append(s.start, t)
 		s.runs[t]++
-		s.workers[gid] = true
+		if !s.lean {
+			s.workers[gid] = true
+		}
+		if _, ok := s.startSeq[t]; !ok {
+			s.startSeq[t] = atomic.AddInt64(&s.seq, 1)
+		}
 		s.mu.Unlock()
 		atomic.AddInt64(&s.seq, 1)
 		if gated {
 			<-s.gate(t)
+		}
+		if s.after != nil {
+			s.after(t) // e.g. the task submits its successor to the executor it runs on
 		}
 		for i := 0; i < s.work; i++ {
 			runtime.Gosched()
@@ -200,10 +215,13 @@ func (s *scen) execute(c *call, t int) {
 // executeReady: everything is prepared, the next thing that happens is Execute itself.
 func (s *scen) executeReady(c *call, r sched.Runnable) {
 	var err error
-	p, _ := Catch(func() { err = s.ex.Execute(r) })
+	p, val := Catch(func() { err = s.ex.Execute(r) })
 	st := int32(1)
 	if p {
-		st = 3
+		st = 3 // the library's own refusal: log.Panicf("invalid executor state") in start()
+		if runtimePanic(val) {
+			st = 8 // send on closed channel, WaitGroup misuse, nil dereference ...
+		}
 	} else if err != nil {
 		st = 2
 	}
@@ -211,12 +229,26 @@ func (s *scen) executeReady(c *call, r sched.Runnable) {
 	atomic.StoreInt32(&c.status, st)
 }
 
+func runtimePanic(v interface{}) bool {
+	if _, ok := v.(runtime.Error); ok {
+		return true
+	}
+	if str, ok := v.(string); ok && strings.HasPrefix(str, "sync") {
+		return true
+	}
+	if e, ok := v.(error); ok && strings.HasPrefix(e.Error(), "sync") {
+		return true
+	}
+	return false
+}
+
 func (s *scen) shutdown(c *call) {
 	atomic.StoreInt32(&c.gid, int32(Goid()))
-	p, _ := Catch(func() { s.ex.Shutdown() })
+	p, val := Catch(func() { s.ex.Shutdown() })
 	st := int32(1)
 	if p {
 		st = 3
+		_ = val
 	}
 	c.retSeq = atomic.AddInt64(&s.seq, 1)
 	atomic.StoreInt32(&c.status, st)
@@ -442,7 +474,21 @@ func runConc(in Sx) Sx {
 	nsub, per := in.At(3).AsInt(), in.At(4).AsInt()
 	rng := NewRng(in.At(5).Uint64())
 	shutafter := in.At(6).AsInt()
+	mode := 0
+	if in.Len() > 7 {
+		mode = in.At(7).AsInt()
+	}
+	// mode 0 callers leave a WaitGroup barrier; Shutdown after `shutafter` runs
+	//      1 callers leave a spin barrier with their first call prepared (fresh executors)
+	//      2 two goroutines: the very first Execute  ||  (wait until the state reads Running; Execute; Shutdown)
+	//      3 `nsub` chains of tasks, each submitting `per` short tasks and its successor to the executor
+	//        it runs on (the queue always has room); Shutdown after `shutafter` runs
+	//      4 full queue: many callers keep submitting into a tiny queue; Shutdown once each has
+	//        made its first call
 	total := nsub * per
+	if mode == 3 {
+		total = 400
+	}
 	outc := make([]int, total)
 	for i := range outc {
 		switch rng.Intn(5) {
@@ -453,41 +499,132 @@ func runConc(in Sx) Sx {
 		}
 	}
 	s := newScen(nw, capacity, func(t int) (int, bool) { return outc[t], false })
-	spin := in.Len() > 7 && in.At(7).AsInt() == 1
-	if spin {
+	defer scens.Delete(s.ex)
+	spin := mode == 1
+	if mode == 1 {
 		s.work = 3
+	}
+	if mode == 4 {
+		s.work = 2
+		s.lean = true
 	}
 	for i := 0; i < total; i++ {
 		s.calls = append(s.calls, &call{})
 	}
 	var barrier sync.WaitGroup
 	var spinGo, spinReady int32
+	var shutInvoked int64
+	sh := &call{}
 	barrier.Add(1)
-	for g := 0; g < nsub; g++ {
+	var stop int32
+	switch mode {
+	case 2:
+		a, c := &call{}, &call{}
+		s.loops = append(s.loops, a, c)
+		s.shuts = append(s.shuts, sh)
+		go func() {
+			gid := int32(Goid())
+			atomic.StoreInt32(&a.gid, gid)
+			r := s.task(0)
+			atomic.StoreInt32(&s.calls[0].gid, gid)
+			atomic.AddInt32(&spinReady, 1)
+			for atomic.LoadInt32(&spinGo) == 0 {
+			}
+			s.executeReady(s.calls[0], r)
+			atomic.StoreInt32(&a.status, 1)
+		}()
+		go func() {
+			gid := int32(Goid())
+			atomic.StoreInt32(&c.gid, gid)
+			r := s.task(1)
+			atomic.StoreInt32(&s.calls[1].gid, gid)
+			atomic.AddInt32(&spinReady, 1)
+			for atomic.LoadInt32(&spinGo) == 0 {
+			}
+			// react within nanoseconds of the state turning Running
+			for k := 0; s.ex.VerifState() != 2; k++ {
+				if k > 1<<16 {
+					runtime.Gosched()
+				}
+				if k > 1<<22 {
+					break
+				}
+			}
+			s.executeReady(s.calls[1], r)
+			atomic.StoreInt64(&shutInvoked, atomic.AddInt64(&s.seq, 1))
+			s.shutdown(sh)
+			atomic.StoreInt32(&c.status, 1)
+		}()
+	case 3:
+		next := int32(nsub)
+		s.chain = make([]int32, total)
+		for g := 0; g < nsub; g++ {
+			s.chain[g] = 1
+		}
+		s.after = func(t int) {
+			if atomic.LoadInt32(&s.chain[t]) != 1 {
+				return // a short task
+			}
+			// a chain task: `per` short tasks and then its successor, all to its own executor
+			for k := 0; k <= per; k++ {
+				id := int(atomic.AddInt32(&next, 1)) - 1
+				if id >= total {
+					return
+				}
+				atomic.StoreInt32(&s.chain[id], int32(btoi(k == per)))
+				s.execute(s.calls[id], id)
+				if atomic.LoadInt32(&s.calls[id].status) != 1 {
+					return
+				}
+			}
+		}
 		lp := &call{}
 		s.loops = append(s.loops, lp)
-		go func(g int) {
-			gid := int32(Goid())
-			atomic.StoreInt32(&lp.gid, gid)
-			first := 0
-			if spin { // leave at the same instant, with the first call fully prepared
-				t := g * per
-				r := s.task(t)
-				atomic.StoreInt32(&s.calls[t].gid, gid)
-				atomic.AddInt32(&spinReady, 1)
-				for atomic.LoadInt32(&spinGo) == 0 {
-				}
-				s.executeReady(s.calls[t], r)
-				first = 1
-			} else {
-				barrier.Wait()
-			}
-			for i := first; i < per; i++ {
-				t := g*per + i
-				s.execute(s.calls[t], t)
+		go func() {
+			atomic.StoreInt32(&lp.gid, int32(Goid()))
+			for g := 0; g < nsub; g++ {
+				s.execute(s.calls[g], g)
 			}
 			atomic.StoreInt32(&lp.status, 1)
-		}(g)
+		}()
+	default:
+		for g := 0; g < nsub; g++ {
+			lp := &call{}
+			s.loops = append(s.loops, lp)
+			go func(g int) {
+				gid := int32(Goid())
+				atomic.StoreInt32(&lp.gid, gid)
+				first := 0
+				if spin { // leave at the same instant, with the first call fully prepared
+					t := g * per
+					r := s.task(t)
+					atomic.StoreInt32(&s.calls[t].gid, gid)
+					atomic.AddInt32(&spinReady, 1)
+					for atomic.LoadInt32(&spinGo) == 0 {
+					}
+					s.executeReady(s.calls[t], r)
+					first = 1
+				} else {
+					barrier.Wait()
+				}
+				for i := first; i < per; i++ {
+					t := g*per + i
+					if mode == 4 {
+						if atomic.LoadInt32(&stop) != 0 {
+							break
+						}
+						atomic.StoreInt32(&s.calls[t].gid, gid)
+						s.executeReady(s.calls[t], s.task(t))
+						if atomic.LoadInt32(&s.calls[t].status) != 1 {
+							break // refused: the executor is being shut down
+						}
+						continue
+					}
+					s.execute(s.calls[t], t)
+				}
+				atomic.StoreInt32(&lp.status, 1)
+			}(g)
+		}
 	}
 	allBack := func() bool {
 		for _, lp := range s.loops {
@@ -497,39 +634,55 @@ func runConc(in Sx) Sx {
 		}
 		return true
 	}
-	if spin { // wait until every caller spins in front of its first Execute
-		for dl := time.Now().Add(time.Second); atomic.LoadInt32(&spinReady) < int32(nsub) && time.Now().Before(dl); {
+	if spin || mode == 2 { // wait until every caller spins in front of its first Execute
+		want := int32(nsub)
+		for dl := time.Now().Add(time.Second); atomic.LoadInt32(&spinReady) < want && time.Now().Before(dl); {
 			runtime.Gosched()
 		}
 	}
 	atomic.StoreInt32(&spinGo, 1)
 	barrier.Done()
-	// wait for the moment to call Shutdown: `shutafter` task bodies have run, or every caller is
-	// back, or the scenario has come to rest (callers parked for good)
-	deadline := time.Now().Add(settleLimit)
-	for k := 0; ; k++ {
-		if shutafter < total && atomic.LoadInt64(&s.nrun) >= int64(shutafter) {
-			break
+	if mode != 2 {
+		// wait for the moment to call Shutdown: `shutafter` task bodies have run / (mode 4) every
+		// caller has made its first call / every caller is back / the scenario has come to rest
+		firstDone := func() bool {
+			for g := 0; g < nsub; g++ {
+				if atomic.LoadInt32(&s.calls[g*per].status) == 0 {
+					return false
+				}
+			}
+			return true
 		}
-		if allBack() || time.Now().After(deadline) {
-			break
-		}
-		if k%64 == 63 {
-			if q, _, _, _ := s.look(); q {
+		deadline := time.Now().Add(settleLimit)
+		for k := 0; ; k++ {
+			if mode == 4 {
+				if firstDone() {
+					break
+				}
+			} else if shutafter < total && atomic.LoadInt64(&s.nrun) >= int64(shutafter) {
 				break
 			}
-			time.Sleep(50 * time.Microsecond)
-		} else {
-			runtime.Gosched()
+			if (mode != 3 && allBack()) || time.Now().After(deadline) {
+				break
+			}
+			if k%64 == 63 {
+				if q, _, _, _ := s.look(); q {
+					break
+				}
+				time.Sleep(50 * time.Microsecond)
+			} else {
+				runtime.Gosched()
+			}
 		}
+		s.mu.Lock()
+		s.shuts = append(s.shuts, sh)
+		s.mu.Unlock()
+		atomic.StoreInt64(&shutInvoked, atomic.AddInt64(&s.seq, 1))
+		go s.shutdown(sh)
 	}
-	sh := &call{}
-	s.shuts = append(s.shuts, sh)
-	var shutInvoked int64
-	atomic.StoreInt64(&shutInvoked, atomic.AddInt64(&s.seq, 1))
-	go s.shutdown(sh)
 	// let the scenario come to rest, then look
 	ok, st, alive, shs := s.settle(settleLimit)
+	atomic.StoreInt32(&stop, 1)
 	inconclusive := !ok
 	invoked := atomic.LoadInt64(&shutInvoked)
 	// Shutdown on an executor that is not running yet is a no-op by construction (its CAS fails);
@@ -546,8 +699,10 @@ func runConc(in Sx) Sx {
 	if shutpending {
 		atomic.AddInt32(&stuckSeen, 1)
 	}
+	shutPanic := atomic.LoadInt32(&sh.status) == 3
 	s.mu.Lock()
 	early, runs, endedb := make([]int, total), make([]int, total), make([]int, total)
+	lateStarts := 0
 	for t := 0; t < total; t++ {
 		c := s.calls[t]
 		if atomic.LoadInt32(&c.status) != 0 && invoked != 0 && c.retSeq < invoked {
@@ -557,18 +712,23 @@ func runConc(in Sx) Sx {
 		if e, ok := s.endSeq[t]; ok && shutret && e < sh.retSeq {
 			endedb[t] = 1
 		}
+		if b, ok := s.startSeq[t]; ok && shutret && b > sh.retSeq {
+			lateStarts++
+		}
 	}
 	// per submitter its tasks must have started in the order it submitted them (checked for nw = 1)
 	orderOK := true
-	last := make([]int, nsub)
-	for g := range last {
-		last[g] = -1
-	}
-	for _, t := range s.start {
-		if g := t / per; t > last[g] {
-			last[g] = t
-		} else {
-			orderOK = false
+	if mode != 3 {
+		last := make([]int, nsub)
+		for g := range last {
+			last[g] = -1
+		}
+		for _, t := range s.start {
+			if g := t / per; t > last[g] {
+				last[g] = t
+			} else {
+				orderOK = false
+			}
 		}
 	}
 	nworkers := len(s.workers)
@@ -579,13 +739,198 @@ func runConc(in Sx) Sx {
 			break
 		}
 	}
-	return List(ints(st), ints(early), ints(runs), ints(endedb), List(Int(int64(alive)), Bool(shutret), Bool(inconclusive),
-		Int(atomic.LoadInt64(&s.maxInflight)), Int(int64(nworkers)), Bool(orderOK), Bool(shutpending)))
+	// trailing calls that were never begun carry no information: drop them (chains, full-queue runs)
+	n := total
+	for n > 0 && st[n-1] == 5 && runs[n-1] == 0 {
+		n--
+	}
+	return List(ints(st[:n]), ints(early[:n]), ints(runs[:n]), ints(endedb[:n]), List(Int(int64(alive)), Bool(shutret), Bool(inconclusive),
+		Int(atomic.LoadInt64(&s.maxInflight)), Int(int64(nworkers)), Bool(orderOK), Bool(shutpending),
+		Int(int64(lateStarts)), Bool(shutPanic)))
+}
+
+func btoi(b bool) int {
+	if b {
+		return 1
+	}
+	return 0
+}
+
+// ---------------------------------------------------------------- lean full-queue races
+//
+// Many callers keep submitting into a tiny queue (most of them blocked on it) while Shutdown is
+// called.  The window of interest is a few nanoseconds wide, so a round does nothing but the race
+// itself (no goroutine dumps, no locks of the harness in the task bodies); a scenario is `rounds`
+// such rounds on fresh executors and reports the first round in which anything is off (else the
+// last one).  Facts used: return values and run counters, ordered by one atomic sequence counter;
+// a goroutine dump is taken only when a call or Shutdown has not returned after 5 s.
+
+type leanTask struct {
+	runs   *int32
+	endSeq *int64
+	seq    *int64
+	infl   *int64
+	maxInf *int64
+}
+
+func (t *leanTask) Run() error {
+	n := atomic.AddInt64(t.infl, 1)
+	for {
+		m := atomic.LoadInt64(t.maxInf)
+		if n <= m || atomic.CompareAndSwapInt64(t.maxInf, m, n) {
+			break
+		}
+	}
+	runtime.Gosched()
+	runtime.Gosched()
+	atomic.AddInt64(t.infl, -1)
+	if atomic.AddInt32(t.runs, 1) == 1 {
+		atomic.StoreInt64(t.endSeq, atomic.AddInt64(t.seq, 1))
+	}
+	return nil
+}
+
+func leanRound(nw, capacity, nsub, per int) (Sx, bool) {
+	e := sched.NewThreadPoolExecutor(nw, capacity).(*sched.ThreadPoolExecutor)
+	total := nsub * per
+	status := make([]int32, total)
+	retSeq := make([]int64, total)
+	runs := make([]int32, total)
+	endSeq := make([]int64, total)
+	var seq, infl, maxInf int64
+	var stop int32
+	var wg, started sync.WaitGroup
+	started.Add(nsub)
+	for g := 0; g < nsub; g++ {
+		wg.Add(1)
+		go func(g int) {
+			defer wg.Done()
+			first := true
+			for k := 0; k < per && atomic.LoadInt32(&stop) == 0; k++ {
+				id := g*per + k
+				t := &leanTask{&runs[id], &endSeq[id], &seq, &infl, &maxInf}
+				var err error
+				p, val := Catch(func() { err = e.Execute(t) })
+				st := int32(1)
+				if p {
+					st = 3
+					if runtimePanic(val) {
+						st = 8
+					}
+				} else if err != nil {
+					st = 2
+				}
+				retSeq[id] = atomic.AddInt64(&seq, 1)
+				atomic.StoreInt32(&status[id], st)
+				if first {
+					first = false
+					started.Done()
+				}
+				if st != 1 {
+					return
+				}
+			}
+			if first {
+				started.Done()
+			}
+		}(g)
+	}
+	waitFor := func(f func(), limit time.Duration) bool {
+		c := make(chan struct{})
+		go func() { f(); close(c) }()
+		select {
+		case <-c:
+			return true
+		case <-time.After(limit):
+			return false
+		}
+	}
+	inconclusive := !waitFor(started.Wait, 10*time.Second)
+	invoked := atomic.AddInt64(&seq, 1)
+	var shutSeq int64
+	shutPanic := false
+	shutBack := waitFor(func() {
+		p, _ := Catch(func() { e.Shutdown() })
+		shutPanic = p
+		atomic.StoreInt64(&shutSeq, atomic.AddInt64(&seq, 1))
+	}, 5*time.Second)
+	atomic.StoreInt32(&stop, 1)
+	allBack := waitFor(wg.Wait, 5*time.Second)
+	shutpending := false
+	if !shutBack || !allBack {
+		// something has not returned: is it parked for good?  (goroutine dump: no goroutine inside the
+		// executor is running or runnable)
+		time.Sleep(20 * time.Millisecond)
+		moving := false
+		for _, g := range GDump() {
+			if strings.Contains(g.Text, "sched.(*ThreadPoolExecutor)") && !parkedState(g.State) {
+				moving = true
+			}
+		}
+		if moving {
+			inconclusive = true
+		} else {
+			shutpending = !shutBack
+		}
+	}
+	ret := atomic.LoadInt64(&shutSeq)
+	st, early, rn, endedb := make([]int, total), make([]int, total), make([]int, total), make([]int, total)
+	anomaly := shutPanic || shutpending || (!allBack && !inconclusive)
+	effective := false
+	for id := 0; id < total; id++ {
+		st[id] = int(atomic.LoadInt32(&status[id]))
+		rn[id] = int(atomic.LoadInt32(&runs[id]))
+		if st[id] != 0 && retSeq[id] < invoked {
+			early[id] = 1
+			if st[id] == 1 {
+				effective = true
+			}
+		}
+		if es := atomic.LoadInt64(&endSeq[id]); es != 0 && ret != 0 && es < ret {
+			endedb[id] = 1
+		}
+	}
+	shutret := shutBack && effective
+	n := total
+	for id := 0; id < total; id++ {
+		if st[id] == 0 && (allBack || inconclusive) {
+			st[id] = 5 // never begun
+		}
+		if st[id] == 8 || rn[id] > 1 || (st[id] == 1 && shutret && (rn[id] != 1 || endedb[id] != 1)) ||
+			(st[id] == 0) || (early[id] == 1 && st[id] != 1) {
+			anomaly = true
+		}
+	}
+	for n > 0 && st[n-1] == 5 && rn[n-1] == 0 {
+		n--
+	}
+	if atomic.LoadInt64(&maxInf) > int64(nw) {
+		anomaly = true
+	}
+	obs := List(ints(st[:n]), ints(early[:n]), ints(rn[:n]), ints(endedb[:n]), List(Int(0), Bool(shutret), Bool(inconclusive),
+		Int(atomic.LoadInt64(&maxInf)), Int(0), Bool(true), Bool(shutpending), Int(0), Bool(shutPanic)))
+	return obs, anomaly && !inconclusive
+}
+
+func runLean(in Sx) Sx {
+	nw, capacity, nsub, per, rounds := in.At(1).AsInt(), in.At(2).AsInt(), in.At(3).AsInt(), in.At(4).AsInt(), in.At(6).AsInt()
+	var obs Sx
+	for r := 0; r < rounds; r++ {
+		var bad bool
+		obs, bad = leanRound(nw, capacity, nsub, per)
+		if bad {
+			break
+		}
+	}
+	return obs
 }
 
 func run(in Sx) Sx {
 	if in.At(0).AsInt() == 0 {
 		return runScript(in)
+	}
+	if in.Len() > 7 && in.At(7).AsInt() == 5 {
+		return runLean(in)
 	}
 	return runConc(in)
 }
@@ -734,6 +1079,32 @@ func genFresh(rng *Rng) Sx {
 		Uint(rng.Next()>>1), Int(int64(nsub*per)), Int(1))
 }
 
+// the very first Execute on a fresh executor with many workers  ||  Execute + Shutdown fired the moment
+// the state reads Running
+func genStartRace(rng *Rng) Sx {
+	return List(Int(1), Int(int64(rng.PickInt(8, 16, 64, 128, 256))), Int(int64(rng.PickInt(1, 2, 4, 8, 16))),
+		Int(2), Int(1), Uint(rng.Next()>>1), Int(2), Int(2))
+}
+
+// chains of tasks that submit short tasks and their successor to the executor they run on (the queue
+// always has room), Shutdown racing with them
+func genChains(rng *Rng) Sx {
+	return List(Int(1), Int(int64(rng.Range(2, 8))), Int(512), Int(int64(rng.Range(1, 4))), Int(int64(rng.Range(0, 3))),
+		Uint(rng.Next()>>1), Int(int64(rng.Range(3, 150))), Int(3))
+}
+
+// many callers keep submitting into a tiny queue (most of them blocked on it); Shutdown races
+func genFullRace(rng *Rng) Sx {
+	return List(Int(1), Int(int64(rng.PickInt(1, 1, 2, 4))), Int(int64(rng.PickInt(0, 1, 1, 2))),
+		Int(int64(rng.PickInt(8, 16, 32))), Int(24), Uint(rng.Next()>>1), Int(0), Int(4))
+}
+
+// the same as a lean multi-round scenario (see runLean): input (1 nw cap nsub per seed rounds 5)
+func genLeanRace(rng *Rng, rounds int) Sx {
+	sh := [][3]int{{1, 0, 8}, {1, 1, 8}, {2, 0, 16}, {2, 2, 16}, {4, 1, 32}, {4, 1, 32}}[rng.Intn(6)]
+	return List(Int(1), Int(int64(sh[0])), Int(int64(sh[1])), Int(int64(sh[2])), Int(32), Uint(rng.Next()>>1), Int(int64(rounds)), Int(5))
+}
+
 func genConc(rng *Rng, race bool) Sx {
 	nw := rng.Range(1, 8)
 	capacity := rng.PickInt(0, 1, 2, 4, 8, 16)
@@ -758,7 +1129,7 @@ func nontrivial(in Sx) bool {
 	if in.At(0).AsInt() == 0 {
 		return in.At(3).Len() >= 1
 	}
-	return in.At(3).AsInt()*in.At(4).AsInt() >= 1
+	return in.At(3).AsInt()*in.At(4).AsInt() >= 1 || (in.Len() > 7 && in.At(7).AsInt() == 3)
 }
 
 var nInconclusive int
@@ -809,7 +1180,7 @@ func gen(a Args, out *Out) {
 				}
 			}
 		} else {
-			out.CountN("conc:tasks", in.At(3).AsInt()*in.At(4).AsInt())
+			out.CountN("conc:calls observed", obs.At(0).Len())
 			if obs.At(4).At(2).AsBool() {
 				out.Count("inconclusive:not-quiescent-within-deadline")
 			}
@@ -839,6 +1210,21 @@ func gen(a Args, out *Out) {
 	r5 := rng.Fork()
 	for i := 0; i < nfresh; i++ {
 		emit("fresh", genFresh(r5))
+	}
+	r6, r7, r8 := rng.Fork(), rng.Fork(), rng.Fork()
+	for i := 0; i < nfresh*3/4; i++ {
+		emit("startrace", genStartRace(r6))
+	}
+	for i := 0; i < nfresh/3; i++ {
+		emit("chains", genChains(r7))
+	}
+	for i := 0; i < nfresh/3; i++ {
+		emit("fullrace", genFullRace(r8))
+	}
+	r9 := rng.Fork()
+	for i := 0; i < nfresh/8; i++ {
+		emit("leanrace", genLeanRace(r9, 80))
+		out.CountN("leanrace:rounds", 80)
 	}
 	for i := 0; i < nscript; i++ {
 		emit("script", genScript(r2, 0))
